@@ -187,7 +187,6 @@ class MetadorMeta:
         obj_node = self._mc.__wrapped__[obj_path]
         assert isinstance(obj_node, H5DatasetLike)
         stored_obj = StoredMetadata(uuid=obj_uuid, schema=schema_ref, node=obj_node)
-        self._objs[schema_ref.name] = stored_obj
         # update TOC
         self._mc.metador._links.register(stored_obj)
         return
@@ -200,7 +199,6 @@ class MetadorMeta:
         if _unlink:
             self._mc.metador._links.unregister(stored_obj.uuid)
         # remove metadata object
-        del self._objs[stored_obj.schema.name]
         del self._mc.__wrapped__[stored_obj.node.name]
         # no metadata objects left -> remove metadata dir
         if not self._objs:
@@ -231,15 +229,21 @@ class MetadorMeta:
         Actual node exists iff any metadata is stored for the node.
         """
 
-        self._objs: Dict[str, StoredMetadata] = {}
-        """Information about available metadata objects."""
+    @property
+    def _objs(self) -> Dict[str, StoredMetadata]:
+        """Information about available metadata objects.
 
+        Always reflects what is stored now (this object can be kept by the user
+        while the metadata is changed through another one for the same node).
+        """
         # load available object metadata encoded in the node names
+        objs: Dict[str, StoredMetadata] = {}
         meta_grp = cast(H5GroupLike, self._mc.__wrapped__.get(self._base_dir, {}))
         for obj_node in meta_grp.values():
             assert isinstance(obj_node, H5DatasetLike)
             obj = StoredMetadata.from_node(obj_node)
-            self._objs[obj.schema.name] = obj
+            objs[obj.schema.name] = obj
+        return objs
 
     # ----
 
